@@ -51,3 +51,12 @@ Definition cond_row_ok (allc : list (string * census)) (r : cond_row) : bool :=
   end.
 
 Definition cond_rows_ok (allc : list (string * census)) (rows : list cond_row) : bool := forallb (cond_row_ok allc) rows.
+
+(** A field stored after construction only under a guard: [new.f = E(self.f)] inside [if g(self.f):]; when the guard
+    fails the constructor default [d] stays.  (Value level: what arrives in the copy for the original's value [v].) *)
+Definition guarded_store {A} (g : A -> bool) (d : A) (v : A) : A := if g v then v else d.
+
+(** The value of an [Optional[list]] field: absent, or a list (possibly EMPTY). *)
+Definition optlist := option (list Z).
+Definition g_is_not_none (v : optlist) : bool := match v with Some _ => true | None => false end.
+Definition g_truthy (v : optlist) : bool := match v with Some (_ :: _) => true | _ => false end.
